@@ -206,6 +206,8 @@ func VerifMain(args []string) int {
 		runBindStreams(out, r, *n)
 	case "access":
 		runAccessStreams(out, r, *n)
+	case "nameable":
+		runNameableStreams(out, r, *n)
 	case "rename":
 		runRenameStreams(out, *src)
 	case "names":
